@@ -147,8 +147,8 @@ type c04WP struct {
 
 func (w *c04WP) GetPod() *corev1.Pod         { return w.pod }
 func (w *c04WP) GetPendingPlugins() []string { return []string{c04Plugin} }
-func (w *c04WP) Allow(plugin string)         { w.h.signal(w, true, plugin) }
-func (w *c04WP) Reject(plugin, msg string)   { w.h.signal(w, false, plugin) }
+func (w *c04WP) Allow(plugin string)         { w.h.signal(w, true, plugin, true) }
+func (w *c04WP) Reject(plugin, msg string)   { w.h.signal(w, false, plugin, true) }
 
 // c04Handle implements the part of frameworkext.ExtendedHandle the monitored code uses. Every
 // other method is promoted from the nil embedded interface and would panic: reaching one means the
@@ -197,11 +197,14 @@ func (h *c04Handle) RejectWaitingPod(uid types.UID) bool {
 	if w == nil {
 		return false
 	}
-	h.signal(w, false, "framework")
+	h.signal(w, false, "framework", false)
 	return true
 }
 
-func (h *c04Handle) signal(w *c04WP, allow bool, plugin string) {
+// signal delivers Allow / Reject to a waiting pod. record: the call came from the plugin (through
+// the WaitingPod interface) and is an observation for the oracles; the framework's own rejections
+// (timeout, pod deleted) are not.
+func (h *c04Handle) signal(w *c04WP, allow bool, plugin string, record bool) {
 	h.emu.Lock()
 	eff := false
 	if w.signal == 0 {
@@ -215,7 +218,9 @@ func (h *c04Handle) signal(w *c04WP, allow bool, plugin string) {
 	if !allow {
 		w.rejectedEver = true
 	}
-	h.events = append(h.events, c04Ev{allow: allow, wp: w, plugin: plugin, effective: eff})
+	if record {
+		h.events = append(h.events, c04Ev{allow: allow, wp: w, plugin: plugin, effective: eff})
+	}
 	h.emu.Unlock()
 }
 
@@ -545,7 +550,7 @@ func (u *c04U) infCreate(a int, prebound bool) bool {
 		for s := 0; s < g.slots; s++ {
 			if last[s] == nil {
 				fs = append(fs, free{g, s, 0})
-			} else if last[s].delDone && last[s].fw == 0 {
+			} else if last[s].delDone {
 				fs = append(fs, free{g, s, last[s].inc + 1})
 			}
 		}
@@ -1105,6 +1110,7 @@ func (u *c04U) cycle(a int, nodeFound bool, between []c04Intent) bool {
 		p.fw = 1
 		p.wp = w
 		_, state, allOK := u.releaseLocked(grp, p, snap, "")
+		onceSat := u.gangCfg(p.gang).policy == extension.GangMatchPolicyOnceSatisfied && grp.satisfied
 		if grp.deleteWhileHeldSinceLastPermit {
 			u.c.Count("delete_between_permits", 1)
 			grp.deleteWhileHeldSinceLastPermit = false
@@ -1118,6 +1124,8 @@ func (u *c04U) cycle(a int, nodeFound bool, between []c04Intent) bool {
 		u.waited = true
 		if allOK {
 			u.c.Count("converse_misses_wait_though_every_gang_has_min", 1)
+		} else if onceSat {
+			u.c.Count("converse_misses_wait_though_once_satisfied_before", 1)
 		}
 		u.fail(u.checkAllows(evs, nil, snap, "Permit=Wait"))
 	case PodGroupNotFound:
@@ -1220,8 +1228,7 @@ func (u *c04U) timeout(a int) bool {
 		return false
 	}
 	w := cand[a%len(cand)]
-	u.h.signal(w, false, "framework-timeout")
-	u.h.drain()
+	u.h.signal(w, false, "framework-timeout", false)
 	u.op("S", "permit timeout of %s (framework rejects)", w.p.key)
 	u.c.Count("op_timeout", 1)
 	return true
